@@ -1714,3 +1714,140 @@ class C20(Spec):
 
     def simplifications(self, plan):
         return []
+
+
+@register
+class C14(Spec):
+    id = "C14"
+    tiers = {"quick": dict(runs=1500, builds=("py",), wall=75), "thorough": dict(runs=50000, builds=("py",), wall=1200)}
+    rule = (
+        "every selection algo sits behind the oracle wrapper in a real Backtest.run over feeds with NaN / zero / negative ticks, late listings and delistings at and around now; each date the stack evaluates 4-8 branches, each with its own prior temp['selected'] (absent, subset, with an outsider), seeded parameters "
+        "(n absolute / fractional, ascending, all_or_none, filter_selected, include_no_data / include_negative, lookback, lag, min_count), seeded signal / stat / on-the-run frames and the global PRNG; references of 3-10 lines are evaluated on the same universe window; ties in ranked selection are left open; "
+        "distinct = plan digest; non-trivial = >= 10 judged calls of which >= 1 with a tick fault on the current row"
+    )
+    assumptions = ["thin-to-moderate fit (see DESIGN): pure functions of (window, parameters, temp); the simulation contributes tick faults at the current date and windows positioned by the clock", "SelectActive is judged in C20 (its perm state is built by real close / roll algos)"]
+
+    def gen(self, r, tier, i):
+        ndates = r.randint(4, 18)
+        ntick = r.randint(3, 6)
+        fspec, fired = drive_engine.gen_feed(r, ndates, ntick, style=r.choice(["bday", "gaps", "intraday"]), faults={"late_listing": 0.25, "delisting": 0.2, "nan_tick": 0.4, "zero_tick": 0.3, "negative_tick": 0.2}, spread_p=0.0)
+        dates, tickers = fspec["dates"], fspec["tickers"]
+        gap = drive_engine.max_gap_days(dates)
+        extra = {}
+        branches = []
+
+        kids = []
+        for t in tickers:
+            if r.random() < 0.6:
+                kids.append({"k": "X", "name": t, "cls": r.choice(["Security", "Security", "CouponPayingSecurity", "HedgeSecurity", "FixedIncomeSecurity"]), "mult": 1.0, "decl": "obj"})
+        if r.random() < 0.4:
+            kids.append({"k": "S", "name": "inner", "cls": "Strategy", "fi": False, "how": "list", "children": [], "algos": []})
+        declared = [k["name"] for k in kids if k["k"] == "X"]
+        if kids and not declared:
+            kids = []
+        uni = declared or list(tickers)  # the tickers of the strategy's universe: names are drawn from it
+        all_tickers = tickers
+        tickers = uni
+
+        def prior():
+            k = r.random()
+            if k < 0.3:
+                return "__del__"
+            sub = r.sample(tickers, r.randint(0, len(tickers)))
+            return sub
+
+        flags = lambda: {"include_no_data": r.random() < 0.2, "include_negative": r.random() < 0.3}  # noqa: E731
+        for bi in range(r.randint(4, 8)):
+            a = r.choice(["SelectAll", "SelectThese", "SelectHasData", "SelectN", "SelectMomentum", "StatTotalReturn", "SetStat", "SelectWhere", "SelectRandomly", "SelectRegex", "SelectTypes", "ResolveOnTheRun"])
+            pre = [{"a": "SetTemp", "set": {"selected": prior()}}]
+            if a == "SelectAll":
+                inner = {"a": a, "kw": flags()}
+            elif a == "SelectThese":
+                inner = {"a": a, "args": [r.sample(tickers, r.randint(1, len(tickers)))], "kw": flags()}
+            elif a == "SelectHasData":
+                inner = {"a": a, "kw": dict(flags(), lookback={"days": gap * r.randint(0, 4) + r.randint(0, 2)}, min_count=r.randint(1, 4))}
+            elif a in ("SelectMomentum", "StatTotalReturn"):
+                p = r.sample(tickers, r.randint(1, len(tickers)))
+                pre = [{"a": "SetTemp", "set": {"selected": p}}]
+                kw = {"lookback": {"days": gap * r.randint(1, 4) + r.randint(0, 3)}, "lag": {"days": r.choice([0, 0, 1, 2, gap])}}
+                if a == "SelectMomentum":
+                    kw.update(sort_descending=r.random() < 0.6, all_or_none=r.random() < 0.3)
+                    inner = {"a": a, "args": [r.randint(1, len(tickers))], "kw": kw}
+                else:
+                    inner = {"a": a, "kw": kw}
+            elif a == "SetStat":
+                nm = "stat%d" % bi
+                extra[nm] = drive_engine._frame(tickers, [[None if r.random() < 0.1 else round(r.gauss(0, 1), 3) for _ in tickers] for _ in dates])
+                inner = {"a": a, "args": [nm], "kw": {"lag": {"days": r.choice([0, 0, 1, gap])}}}
+            elif a == "SelectN":
+                nm = "stat%d" % bi
+                vals = [[None if r.random() < 0.15 else r.choice([round(r.gauss(0, 1), 3), 0.5, 0.5]) for _ in tickers] for _ in dates]
+                extra[nm] = drive_engine._frame(tickers, vals)
+                pre.append({"a": "SetStat", "args": [nm]})
+                inner = {"a": a, "args": [r.choice([1, 2, 3, 0.34, 0.5, 0.99, len(tickers)])], "kw": {"sort_descending": r.random() < 0.6, "all_or_none": r.random() < 0.3, "filter_selected": r.random() < 0.5}}
+            elif a == "SelectWhere":
+                nm = "sig%d" % bi
+                extra[nm] = drive_engine._frame(tickers, [[r.random() < 0.6 for _ in tickers] for _ in dates], dtype="bool")
+                inner = {"a": a, "args": [nm], "kw": flags()}
+            elif a == "SelectRandomly":
+                inner = {"a": a, "kw": dict(flags(), n=r.choice([None, 1, 2, 10]))}
+            elif a == "SelectRegex":
+                p = r.sample(tickers, r.randint(0, len(tickers)))
+                pre = [{"a": "SetTemp", "set": {"selected": p}}]
+                inner = {"a": a, "args": ["[%s]" % "".join(r.sample(tickers, r.randint(1, len(tickers))))]}
+            elif a == "SelectTypes":
+                inner = {"a": a, "include": r.choice([["Node"], ["SecurityBase"], ["Security"], ["StrategyBase"], ["CouponPayingSecurity", "HedgeSecurity"]]), "exclude": r.choice([[], [], ["HedgeSecurity"], ["StrategyBase"]])}
+            else:
+                nm = "otr%d" % bi
+                alias = ["OTR1", "OTR2"]
+                extra[nm] = {"kind": "frame", "cols": alias, "data": [[r.choice(tickers) for _ in alias] for _ in dates], "dtype": "object"}
+                p = r.sample(tickers, r.randint(0, min(2, len(tickers)))) + r.sample(alias, r.randint(1, 2))
+                pre = [{"a": "SetTemp", "set": {"selected": p}}]
+                inner = {"a": a, "args": [nm], "kw": flags()}
+            branches.append({"a": "AlgoStack", "algos": pre + [{"a": "Wrap", "inner": inner}]})
+        tickers = all_tickers
+        if any(k["cls"] in ("CouponPayingSecurity",) for k in kids if k["k"] == "X"):
+            fspec["coupons"] = [[0.0 for _ in tickers] for _ in dates]
+        root = {"k": "S", "name": "top", "cls": "Strategy", "fi": False, "how": "list", "children": kids, "algos": [{"a": "Or", "algos": branches}]}
+        cfg = {"integer": True, "comm": None, "capital": 1e6, "fi": False, "obs_price": False, "obs_eod": False, "profile": "select"}
+        return {"driver": "engine", "cfg": cfg, "tree": root, "feed": fspec, "extra": extra, "fired": fired, "declared": declared, "seed": r.randrange(1 << 30)}
+
+    def run(self, bt, plan):
+        from .monitors import c14
+
+        sim = drive_engine.EngineSim(bt, plan, set())
+        sim.light = True
+        mon = c14.C14Monitor(sim, plan)
+        sim.wrap_monitor = mon
+        drive_engine.taps.install(bt)
+        rng.pin_globals(plan["seed"])
+        exc = None
+        try:
+            sim.setup()
+            sim.bkt.run()
+        except Exception as e:  # noqa
+            exc = e
+        finally:
+            drive_engine.taps.set_current(None)
+        viol = sim.viol
+        if exc is not None:
+            import traceback
+
+            tb = traceback.format_exception(type(exc), exc, exc.__traceback__)
+            where = [ln.strip() for ln in tb if "algos.py" in ln][-1:] or [""]
+            viol.append({"check": "c14_exception", "detail": "%s: %s @ %s" % (type(exc).__name__, str(exc)[:160], where[0][:120]), "flags": {"exc": type(exc).__name__}})
+        fired = dict(plan.get("fired", {}))
+        fired["tick_fault_at_now"] = mon.fault_at_now
+        return dict(viol=viol[:3], fired=fired, nontrivial=(mon.judged >= 10 and mon.fault_at_now >= 1), info={"selection_calls_judged": mon.judged}, dates=len(plan["feed"]["dates"]), steps=mon.judged)
+
+    def owns(self, check):
+        return check.startswith("c14_")
+
+    def simplifications(self, plan):
+        out = []
+        br = plan["tree"]["algos"][0]["algos"]
+        for i in range(len(br)):
+            b2 = br[:i] + br[i + 1:]
+            if b2:
+                out.append(dict(plan, tree=dict(plan["tree"], algos=[{"a": "Or", "algos": b2}])))
+        return out
